@@ -1,5 +1,6 @@
 import PhyVerif.Driver.Json
 import PhyVerif.Driver.C18
+import PhyVerif.Driver.C03
 import PhyVerif.Model.C10
 import PhyVerif.Spec.C10
 namespace PhyVerif.Driver
@@ -33,7 +34,7 @@ def asOp (j : Json) : R Op := do
       | _ => .error "meta entry"
     pure (.saveMeta (← getStr j "field") entries)
   | "write_file" => pure (.writeFile (← getStr j "stem", ← getBool j "tsv") (← fld j "file" >>= asFile))
-  | "save_subset" => pure .saveSubset
+  | "save_subset" => pure (.saveSubset (← getNats j "sel") (← getNat j "max_n"))
   | "close" => pure .close
   | "reload" => pure .reload
   | _ => .error s!"C10 op {k}"
@@ -43,24 +44,72 @@ def jView (v : List Nat × List (String × List (Cell × Cell))) : Json :=
               ("metadata", jList (fun (f : String × List (Cell × Cell)) =>
                   Json.arr #[Json.str f.1, jList (fun (p : Cell × Cell) => Json.arr #[jCell p.1, jCell p.2]) f.2]) v.2)]
 
+/-- the visiting order observed on the real directory (`glob('*.csv')` then `glob('*.tsv')`), as entries of the
+model directory; names the model does not know are dropped, files the listing omits are not visited -/
+def visitOf (files : List (FName × File)) (order : List FName) : List (FName × File) :=
+  order.filterMap fun nm => files.find? fun p => p.1 == nm
+
+def asFName (j : Json) : R FName := do
+  match ← asArr j with
+  | [s, b] => pure (← asStr s, ← asBool b)
+  | _ => .error "file name: [stem, is_tsv] expected"
+
 def runC10 (op : String) (j : Json) : R Json := do
   match op with
   | "history" =>
     let sc0 ← getNats j "clusters0"
-    let ops ← fld j "ops" >>= asList asOp
-    let mut d : Disk := ⟨sc0, [], false⟩
+    let ops ← fld j "ops" >>= asArr
+    let f ← getRatD j "factor" 1
+    let scale : Rat → Rat := fun x => x * f
+    let fixed : Fixed Rat :=
+      { spikeTemplates := ← getNats j "spike_templates", spikeSamples := ← getInts j "spike_samples",
+        raw := ← getRatMat j "raw", chunks := ← fld j "chunks" >>= asList asPairN,
+        orders := ← getIntss j "orders", nsw := ← getNat j "nsw", nClosest := ← getNat j "closest" }
+    let mut d : Disk Rat := ⟨sc0, [], none, fixed⟩
     let mut a : Abs := ⟨sc0, []⟩
     let mut views : List Json := []
-    for o in ops do
-      d := step renderCell d o
+    for jo in ops do
+      let o ← asOp jo
+      d := step renderCell scale d o
       a := absStep a o
       match o with
-      | .reload => views := views ++ [Json.mkObj [("view", jView (view parseTagged d)),
-                                                  ("abs_clusters", jNats a.clusters),
-                                                  ("abs_fields", jList (fun (f : String × List (Nat × Cell)) =>
-                                                     Json.arr #[Json.str f.1, jList (fun (p : Nat × Cell) => Json.arr #[jNat p.1, jCell p.2]) f.2]) a.fields),
-                                                  ("files", jList (fun (f : FName × File) => Json.str (f.1.1 ++ (if f.1.2 then ".tsv" else ".csv"))) d.files),
-                                                  ("subset", Json.bool d.subsetSaved)]]
+      | .reload =>
+        -- metadata in the visiting order the real loader had (default: the model's own directory order)
+        let visit ← (if hasFld jo "order" then do
+            let order ← fld jo "order" >>= asList asFName
+            pure (visitOf d.files order)
+          else pure ((d.files.filter fun p => !p.1.2) ++ (d.files.filter fun p => p.1.2)))
+        let mview := metadataViewIn parseTagged visit
+        -- saved fields the property speaks about at this reload: the file of the last save is still there and is
+        -- the last visited file that says anything about the field (view_field_eq_last)
+        let claimed := a.fields.filter fun (fd : String × List (Nat × Cell)) =>
+          let name : FName := ("cluster_" ++ fd.1, true)
+          (d.files.lookup name == some (simpleTable renderCell fd.1 fd.2)) &&
+          ((visit.reverse.findSome? fun p => (fileField parseTagged fd.1 p).map fun _ => p.1) == some name)
+        let store := storeView d
+        let query ← (if hasFld jo "query" then getNats jo "query" else pure [])
+        let chq ← (if hasFld jo "chq" then getNats jo "chq" else pure [])
+        let stored := match store with
+          | some st => query.all st.spikeIds.contains
+          | none => false
+        views := views ++ [Json.mkObj [
+          ("view", jView (d.clusters, mview)),
+          ("abs_clusters", jNats a.clusters),
+          ("abs_fields", jList (fun (f : String × List (Nat × Cell)) =>
+             Json.arr #[Json.str f.1, jList (fun (p : Nat × Cell) => Json.arr #[jNat p.1, jCell p.2]) f.2]) a.fields),
+          ("claimed", jList (fun (f : String × List (Nat × Cell)) => Json.str f.1) claimed),
+          ("files", jList (fun (f : FName × File) => Json.str (f.1.1 ++ (if f.1.2 then ".tsv" else ".csv"))) d.files),
+          ("templates", jNats d.fixed.spikeTemplates), ("samples", jInts d.fixed.spikeSamples),
+          ("subset", Json.bool d.subset.isSome),
+          ("store", jOpt (fun (st : C03.Store Rat) => Json.mkObj [("ids", jNats st.spikeIds),
+              ("channels", jIMat st.spikeChannels)]) store),
+          ("wf", jQ3 (C03.getWaveforms store d.fixed.raw d.fixed.spikeSamples query chq d.fixed.nsw)),
+          ("wf_spec", jOpt jQ3 (match store with
+            | some st => if stored then some (query.map fun q =>
+                C03.lookupSpec scale d.fixed.raw (d.fixed.spikeSamples.getD q 0) d.fixed.nsw
+                  (st.spikeChannels.getD (st.spikeIds.idxOf q) []) chq) else none
+            | none => none)),
+          ("tile", Json.bool (PhyVerif.C16.intervalsTile d.fixed.raw.length d.fixed.chunks))]]
       | _ => pure ()
     pure (Json.mkObj [("views", Json.arr views.toArray)])
   | _ => .error s!"C10: unknown op {op}"
